@@ -41,6 +41,7 @@ def eval_one(pid, sc):
         flat = dyn_gen.flatten_variant(sc)
         stats["twin"] = flat is not None
         if flat is not None:
+            flat["twin_of_prev"] = True
             rf, tf = dyn_rt.run(flat)
             traces.append((flat, rf, tf))
             clauses += dyn_mon.c10_pair(dyn_mon.View(sc, res, trace), dyn_mon.View(flat, rf, tf))
@@ -223,6 +224,20 @@ def scenarios(pid, tier, seed):
             sc = dyn_gen.gen_tree(rng, depth=rng.choice([2, 2, 3]), p_sched=0.5)
             sc["late_fill"] = True
             out.append(("late-fill", sc))
+    if pid in ("C01",):
+        # verbose schedulers whose standard output is a strict utf-8 stream, and a job result that such a stream cannot
+        # print (a file name with an undecodable byte): the orchestration of the verbose scheduler fails half-way
+        for i in range(max(20, n_r // 20)):
+            inner = [dyn_gen.J("q", rng.choice([0, 1]), odd=True, h=1), dyn_gen.J("long", rng.choice([2, 3, None]), h=2, forever=False),
+                     dyn_gen.J("q2", 1, h=3, req=["q"] if rng.random() < 0.5 else [])]
+            if inner[1]["d"] is None:
+                inner[1]["forever"] = True
+            rng.shuffle(inner)
+            nested = dyn_gen.S("in", inner, verbose=True, crit=rng.random() < 0.5, w=rng.choice([None, None, 2]), h=4)
+            kids = [nested, dyn_gen.J("after", 1, h=5, req=["in"]), dyn_gen.J("side", rng.choice([1, 4]), h=6)]
+            if rng.random() < 0.4:
+                kids = [dyn_gen.S("mid", [nested, dyn_gen.J("m", 1, h=7)], h=8), dyn_gen.J("after", 1, h=5, req=["mid"]), kids[2]]
+            out.append(("unprintable", dict(tree=dyn_gen.S("top", kids, pure=rng.random() < 0.5, verbose=rng.random() < 0.3), strict_out=True)))
     if pid in ("C08", "C04"):
         # job steps that keep the loop busy (time passes while the scheduler has work to do): chains and windows of
         # short busy jobs whose total exceeds the timeout
@@ -313,6 +328,8 @@ def run(pid, tier, seed, res, drv, replay=None, replay_path=None):
             res.samples.append({"scenario": sc, "trace_head": [list(map(str, e[:5])) for e in traces[0][2][:25]]})
     # replay every trace through the Lean model: correspondence + the Lean monitors
     dyn_replay.replay_all(pid, all_traces, res, drv)
+    if pid == "C10":
+        dyn_replay.flat_ties(all_traces, res, drv)
     # violations: shrink, smallest first
     for key, (c, sc) in first_by_key.items():
         small = shrink(pid, sc, key) if not replay else sc
